@@ -96,6 +96,13 @@ func Residue(w *World, sc *Scenario, base *Baseline) []string {
 		}
 	}
 	out = append(out, virtualServiceResidue(w, sc, base)...)
+	for _, o := range w.Store.PeekAll("horizontalpodautoscalers") {
+		if u, ok := o.(*unstructured.Unstructured); ok {
+			if name, _, _ := unstructured.NestedString(u.Object, "spec", "scaleTargetRef", "name"); name != AppName {
+				out = append(out, "HPA target is still "+name+" (the user's is "+AppName+")")
+			}
+		}
+	}
 	if v := ViewWorkload(w, sc); v != nil {
 		for _, m := range rolloutMarkers {
 			if _, has := v.Annotations[m]; has {
@@ -207,7 +214,7 @@ func (m *ExitMonitor) OnState(x *Ctx, quiescent bool) {
 
 func residueClass(res []string) string {
 	first := res[0]
-	for _, w := range []string{"BatchRelease", "canary Service", "canary Ingress", "canary Deployment", "stable Service selector", "stable Ingress", "VirtualService", "annotation", "paused", "partition", "converge"} {
+	for _, w := range []string{"BatchRelease", "canary Service", "canary Ingress", "canary Deployment", "stable Service selector", "stable Ingress", "VirtualService", "HPA", "annotation", "paused", "partition", "converge"} {
 		if strings.Contains(first, w) {
 			return strings.ReplaceAll(w, " ", "-")
 		}
